@@ -227,8 +227,6 @@ namespace CDNS {
             }
             catch (...) {
                 error = std::current_exception();
-                m_p = m_buffer;
-                m_avail = BUFFER_SIZE;
             }
 
             m_cos->rotate_output(out);
